@@ -60,6 +60,14 @@ def run_optable(ctx, rep_, F):
     rep_.floor("C02.operators", len(ops), 20)
     # ---- how each static operator is evaluated at run time --------------------------------
     evaluator = {}
+    # a compound operator (`+=`; a later `<<=`) is one whose symbol bin_op itself does not know and which is spelled `<operator>=`:
+    # its base is read from the spelling, so that an operator added to the language is judged like the five that exist
+    inv = {v: k for k, v in syms.items()}
+    for op in ops:
+        sy = syms.get(op, "")
+        if op not in BASE_OF_ASSIGN and sy.endswith("=") and sy[:-1] in inv and O.rt_dispatch(sy, ("Int", "Int"))[0] == "err" \
+                and inv[sy[:-1]] not in ("Eq", "Neq", "Unwrap"):
+            BASE_OF_ASSIGN[op] = inv[sy[:-1]]
     for op in ops:
         base = BASE_OF_ASSIGN.get(op, op)
         if base in ("Eq", "Neq"):
@@ -101,6 +109,10 @@ def run_optable(ctx, rep_, F):
         raise AnchorMissing("bin_op_assign")
     bodies = [ba] + F.closures_of(ba)
     want = {"+=": "add", "-=": "sub", "*=": "mul", "/=": "div", "%=": "rem"}
+    for op, base in BASE_OF_ASSIGN.items():
+        d = O.rt_dispatch(syms.get(base), ("Int", "Int"))
+        if syms.get(op) and syms[op] not in want and d[0] == "fn":
+            want[syms[op]] = d[1].rsplit("::", 1)[-1]
     found = {}
     for g in bodies:
         for c in g.calls():
@@ -691,9 +703,9 @@ def opassign_result_storable(F, rep, rule="C02.opassign-result"):
     if ft is None:
         raise AnchorMissing("Expr::for_type")
     gots = ft.calls_to("compiler::ast::r#type::TypeLayout::get_output_type")
-    isop = ft.calls_to("compiler::ast::math_expr::Op::is_op_assign")
+    isop, der_isop = rules.storing_operator_conditions(F, ft)
     if not gots or not isop:
-        raise AnchorMissing("get_output_type / is_op_assign in Expr::for_type")
+        raise AnchorMissing("get_output_type / a test of the operator for compound assignment (Op::is_op_assign) in Expr::for_type")
     thr = rules.TRANSPARENT | {rules.TRY_BRANCH, "anyhow::Context::with_context", "anyhow::Context::context"}
     cmps = []
     for c in ft.calls():
@@ -713,7 +725,7 @@ def opassign_result_storable(F, rep, rule="C02.opassign-result"):
         return
     # Ok returns after get_output_type, on the op-assign side, only through the passing edge of the comparison
     removed = set()
-    der_op = ft.derived([c.dst["l"] for c in isop])
+    der_op = der_isop
     for bb, t_t, f_t, pol in rules.bool_switches(ft, der_op):
         if pol is not None:
             removed.add((bb, f_t if pol else t_t))       # not an op-assign: nothing to check
@@ -805,10 +817,21 @@ def names_have_element_types(F, rep, rule="C02.element-type"):
     if lt is None:
         raise AnchorMissing("Parser::list_type")
     tests = [c for c in lt.calls() if c.callee().endswith("::is_empty")]
+    # the answers that are a list of element types (ListType::Mixed(vec)); `[T...]` (ListType::Open(T)) names its type by construction
+    mixed = sorted({bi for bi, si, dst, rv, s_ in lt.assigns() if rv.get("agg", {}).get("adt", "").endswith("::ListType") and rv["agg"].get("v") == "Mixed"})
+    if not mixed:
+        raise AnchorMissing("ListType::Mixed built in Parser::list_type")
     if not tests:
         v, info = "violated", "no emptiness test: the annotation `[]` spells the type that fits every `[T...]`"
     else:
-        v, info = rules.guarded_by_bool(lt, rules.ok_return_blocks(lt), [t.dst["l"] for t in tests], want=False)
+        # some emptiness test stands, on its negative edge, in front of every such answer
+        v, info = "violated", {}
+        for t in tests:
+            v1, info1 = rules.guarded_by_bool(lt, mixed, [t.dst["l"]], want=False)
+            if v1 == "ok":
+                v, info = "ok", info1
+                break
+            info = info1
     rep.ob(rule, "a written list type names at least one element type", v, str(info) if v != "ok" else "", lt.span, fn=lt.path, key=rule + "|written")
 
 
@@ -966,7 +989,7 @@ def strings_have_no_slots(F, rep, rule="C02.str-slot"):
     ft = F.fn("compiler::ast::math_expr::Expr::for_type")
     if ft is None:
         raise AnchorMissing("Expr::for_type")
-    isop = ft.calls_to("compiler::ast::math_expr::Op::is_op_assign")
+    isop, _ = rules.storing_operator_conditions(F, ft)
     region = set()
     for c in isop:
         region |= ft.reachable(c.bb)
